@@ -28,7 +28,9 @@ enum Point : int
     THREAD_START,     // start_searching() entered
     THREAD_END,       // start_searching() about to return
     FLAG_LOAD,        // about to read the stop flag
-    FLAG_STORE        // about to write the stop flag               (a = pointer to the new value)
+    FLAG_STORE,       // about to write the stop flag               (a = pointer to the new value)
+    IO_LOCKED,        // the output lock has just been taken (sync_cout)
+    IO_UNLOCKING      // the output lock is about to be released (sync_endl)
 };
 
 using PointCallback = void (*)(int point, void* search, const void* a, const void* b);
